@@ -5,7 +5,7 @@
 //	MapRanges.v  every `range` statement over a map-typed operand (file, function, body digest)
 //	Pools.v      facts about the goroutine worker pools of tree.Compare, tree.CompareWeighted,
 //	             support.FBP, support.TBE (captured variables assigned in workers, exits without Done)
-//	Digests.v    normalised-source digests of the hand-modelled functions
+//	Globals.v    every package-level variable of the library packages with the functions that read / write it
 //
 // It is part of the trusted base; its tables are cross-checked at run time by the harness.
 package main
@@ -65,4 +65,5 @@ func main() {
 	writeIfChanged(filepath.Join(*out, "Flags.v"), genFlags(byPath[mod+"/cmd"], *repo))
 	writeIfChanged(filepath.Join(*out, "MapRanges.v"), genMapRanges(pkgs, *repo))
 	writeIfChanged(filepath.Join(*out, "Pools.v"), genPools(byPath, mod, *repo))
+	writeIfChanged(filepath.Join(*out, "Globals.v"), genGlobals(pkgs, mod, *repo))
 }
